@@ -4,8 +4,10 @@ mutsweep/report.py: write mutsweep/REPORT.md from the sweep results.
 
   results.jsonl      first pass (machinery as of the start of session 3)
   results_r2.jsonl   second pass over everything the first pass missed or had not run, with the rs2lean bridge theorems
-  triage.json        hand-written triage of the mutants the second pass still misses:  id -> [class, note]
-                     class: equivalent | property-equivalent | out-of-scope | statistical | gap
+  results_r3.jsonl   third pass: everything still missed + new mutants (literal initialisers, statement deletion in more files)
+  results_r4.jsonl   fourth pass over what the third pass missed, after the gaps it showed were closed
+  triage.json        hand-written triage of the mutants the THIRD pass missed:  id -> [class, note]
+                     class: equivalent | property-equivalent | out-of-scope | statistical | gap | gap-closed
 
 A measurement of the checks' sensitivity to one-line changes that compile and pass the 47 tests; it decides nothing.
 """
@@ -23,11 +25,15 @@ def load(p):
 def main():
     r1 = {r["id"]: r for r in load("results.jsonl")}
     r2 = {r["id"]: r for r in load("results_r2.jsonl")}
-    muts = {m["id"]: m for m in load("mutants.jsonl")}
+    r3 = {r["id"]: r for r in load("results_r3.jsonl")}
+    r4 = {r["id"]: r for r in load("results_r4.jsonl")}
+    muts = {}
+    for f in ("mutants.jsonl", "mutants_r2.jsonl", "mutants_r3.jsonl"):
+        for m in load(f): muts[m["id"]] = m
     tri = json.load(open(os.path.join(HERE, "triage.json"))) if os.path.exists(os.path.join(HERE, "triage.json")) else {}
     final = {}
     for i, m in muts.items():
-        r = r2.get(i) or r1.get(i)
+        r = r4.get(i) or r3.get(i) or r2.get(i) or r1.get(i)
         if r is not None: final[i] = r
     c = collections.Counter(r["status"] for r in final.values())
     out = []
@@ -48,6 +54,12 @@ def main():
     flipped = [i for i in p1_missed if r2.get(i, {}).get("status") == "caught"]
     out.append(f"First pass (before the rs2lean translator and bridge theorems): {len(p1_missed)} missed. Second pass: {len(flipped)} of those are now caught "
                f"(bridge theorems for message.rs, merkle.rs, request.rs, online.rs, responder.rs, sign.rs, …).\n")
+    p3_missed = [i for i, r in r3.items() if r["status"] in ("missed", "harness-error")]
+    f4 = [i for i in p3_missed if r4.get(i, {}).get("status") == "caught"]
+    out.append(f"Third pass: {len(p3_missed)} missed or harness-error (triaged below). Fourth pass, after closing the gaps the triage showed (grease.rs and "
+               f"reporter.rs translated and bridged, recorder totals in the event-loop stream, the real binary started for refused configurations, a harness "
+               f"panic treated as a broken correspondence): {len(f4)} of those are now caught"
+               f"{' (fourth pass not yet complete: ' + str(len(r4)) + ' of ' + str(len(p3_missed)) + ' re-run)' if len(r4) < len(p3_missed) else ''}.\n")
     # per file
     out.append("## Per file (mutants that compile and pass the tests)\n")
     out.append("| file | caught | missed |\n|---|---|---|")
@@ -60,15 +72,16 @@ def main():
     cls = collections.Counter()
     rows = []
     for i, r in sorted(final.items(), key=lambda kv: (kv[1]["file"], kv[1]["line"])):
-        if r["status"] != "missed": continue
+        if r["status"] not in ("missed", "harness-error") and not (i in tri and tri[i][0] == "gap-closed"): continue
         t = tri.get(i, ["untriaged", ""])
+        if r["status"] == "caught": t = [t[0], t[1] + " — caught in the fourth pass"]
         cls[t[0]] += 1
         rows.append(f"| {r['file']}:{r['line']} | `{r['before'][:60].replace('|', '¦')}` → `{r['after'][:60].replace('|', '¦')}` | {t[0]} | {t[1]} |")
     out.append("| class | count |\n|---|---|")
     for k, v in cls.most_common(): out.append(f"| {k} | {v} |")
     out.append("\nClasses: *equivalent* = no observable behaviour changes (capacities, values overwritten before use, dead defaults); "
                "*property-equivalent* = behaviour changes but none of the 20 properties is affected (performance, log text, timing jitter, statistics "
-               "publication cadence); *statistical* = changes a probability that only a large sample distinguishes; *out-of-scope* = code no property is "
+               "publication cadence); *gap-closed* = a property was affected and the check has been strengthened since the third pass; *statistical* = changes a probability that only a large sample distinguishes; *out-of-scope* = code no property is "
                "anchored in (CSV/zstd reporter output, client stress mode); *gap* = a property is affected and no quick check notices.\n")
     out.append("| location | change | class | note |\n|---|---|---|---|")
     out += rows
